@@ -773,8 +773,9 @@ class DeferQueue:
 
     def __init__(self):
         self._writes = []
-        self._pending_offsets = set()
+        self._pending_offsets = {}
         self._next_offset = 0
+        self._num_requests = 0
 
     def request_writes(self, offset, data):
         """Request any available writes given new incoming data.
@@ -789,23 +790,33 @@ class DeferQueue:
         each method call.
 
         """
-        if offset < self._next_offset:
+        if offset < self._next_offset and (
+            offset + len(data) <= self._next_offset
+        ):
             # This is a request for a write that we've already
             # seen.  This can happen in the event of a retry
             # where if we retry at at offset N/2, we'll requeue
             # offsets 0-N/2 again.
             return []
         writes = []
-        if offset in self._pending_offsets:
+        if len(data) <= self._pending_offsets.get(offset, -1):
             # We've already queued this offset so this request is
             # a duplicate.  In this case we should ignore
             # this request and prefer what's already queued.
             return []
-        heapq.heappush(self._writes, (offset, data))
-        self._pending_offsets.add(offset)
-        while self._writes and self._writes[0][0] == self._next_offset:
+        # The request count breaks ties between blocks queued for the same
+        # offset so that the block queued first is written first.
+        heapq.heappush(self._writes, (offset, self._num_requests, data))
+        self._num_requests += 1
+        self._pending_offsets[offset] = len(data)
+        while self._writes and self._writes[0][0] <= self._next_offset:
             next_write = heapq.heappop(self._writes)
-            writes.append({'offset': next_write[0], 'data': next_write[1]})
-            self._pending_offsets.remove(next_write[0])
-            self._next_offset += len(next_write[1])
+            self._pending_offsets.pop(next_write[0], None)
+            # A retried request can deliver a range again with different
+            # chunk boundaries, so a block may overlap data that has
+            # already been written. Only write out the unseen part of it.
+            unseen = next_write[2][self._next_offset - next_write[0] :]
+            if unseen or next_write[0] == self._next_offset:
+                writes.append({'offset': self._next_offset, 'data': unseen})
+                self._next_offset += len(unseen)
         return writes
